@@ -23,8 +23,13 @@ details are C33's business), a table of install(1) options that force the extern
 succeed (-c, -C, -D, --strip-program=true -s, symbolic modes) or fail (-s on text, unknown user, bad mode, unknown
 option); docompress/dostrip/filter_env/eapply with tiny inputs.
 
-Dropped vs DESIGN.md: unpack (needs archive tools, slow), has_version/best_version (need a domain),
-audit-hook fault injection (in-process monkeypatch instead).
+Also generated: "blocked" pairs (an earlier `dodir` puts a directory where a later multi-file doins/doexe -- python
+path or external fallback -- must place one of its files: the whole request must fail wherever the blocked file sits
+in the argument list) and `unpack` of a good / corrupt / missing tiny tar.gz (the unpacker's multi-line stderr is
+forwarded into the reply).
+
+Dropped vs DESIGN.md: has_version/best_version (need a domain), audit-hook fault injection (in-process
+monkeypatch instead).
 """
 from __future__ import annotations
 
@@ -157,7 +162,7 @@ TARGET = "line one\nline two\nline three\n"
 
 def optline(req, eapi):
     h = req["helper"]
-    if h in ("docompress", "dostrip", "eapply", "filter_env"):
+    if h in ("docompress", "dostrip", "eapply", "filter_env", "unpack"):
         return ""
     return H33.options_line({"helper": h, "env": req.get("env", {}), "eapi": eapi})
 
@@ -188,9 +193,18 @@ def expectation(req, eapi, W, ED, before):
         return ("reject" if bad else "ok"), {}, False
     if h == "filter_env":
         return "ok", {}, False
+    if h == "unpack":
+        if not args:
+            return "reject", {}, False
+        for a in args:
+            if not os.path.exists(a if a.startswith("/") else os.path.join(W, a)):
+                return "reject", {}, False
+        return ("reject" if any("bad" in os.path.basename(a) for a in args) else "ok"), {}, False
     res = M.model({"eapi": eapi, "helper": h, "args": args, "env": env, "PF": H33.PF, "PN": H33.PN}, W, before)
     if res.status != "ok":
         return res.status, res.entries, False
+    # a regular file cannot replace a directory (install(1) refuses, so does the python path): the request fails
+    blocked = any(v["type"] == "file" and (before.get(rel) or {}).get("type") == "dir" for rel, v in res.entries.items())
     needs_file = any(v["type"] == "file" for v in res.entries.values())
     needs_dir = any(v["type"] == "dir" for v in res.entries.values())
     fkey = {"doins": "insopts", "doexe": "exeopts"}.get(h)
@@ -210,6 +224,8 @@ def expectation(req, eapi, W, ED, before):
             external = True
         if bad:
             status = "reject"
+    if blocked:
+        status = "reject"
     return status, res.entries, external
 
 
@@ -269,6 +285,16 @@ class World:
             f.write(PATCH_BAD)
         with open(os.path.join(self.W, "env.in"), "w") as f:
             f.write("FOO=1\nBAR=2\nf() { :; }\n")
+        with open(os.path.join(self.W, "bad.tar.gz"), "wb") as f:
+            f.write(b"this is not an archive at all\n" * 5)
+        import io
+        import tarfile
+
+        with tarfile.open(os.path.join(self.W, "good.tar.gz"), "w:gz") as t:
+            data = b"unpacked\n"
+            ti = tarfile.TarInfo("unp/file.txt")
+            ti.size = len(data)
+            t.addfile(ti, io.BytesIO(data))
         self.op = H33.make_op(case["eapi"], self.ED, self.T)
         self.H = H33.build_helpers(self.op)
 
@@ -768,7 +794,7 @@ def request(draw, allow_fault=True):
         "ok_files", "ok_files", "ok_files", "ok_files", "missing", "missing", "dir_no_r", "noman", "ext_ok", "ext_fail",
         "dirext_ok", "dirext_fail", "dodir", "dodir", "keepdir", "keepdir", "dosym", "dosym", "dosym_bad", "recursive",
         "recursive", "noargs", "badopt", "docompress", "dostrip", "eapply_ok", "eapply_bad", "eapply_missing",
-        "filter_env"]))
+        "filter_env", "blocked", "blocked", "blocked", "unpack_ok", "unpack_bad", "unpack_bad", "unpack_missing"]))
     env = {}
     args = []
     h = "doins"
@@ -827,7 +853,7 @@ def request(draw, allow_fault=True):
     elif kind == "recursive":
         h = "doins"
         env["insinto"] = "/usr/share/r"
-        args = ["-r", "d"] + (["a.txt"] if draw(st.booleans()) else [])
+        args = ["-r", draw(st.sampled_from(["d", "d/", "d/.", "./d"]))] + (["a.txt"] if draw(st.booleans()) else [])
     elif kind == "noargs":
         h = draw(st.sampled_from(["doins", "dodoc", "dodir", "doman"]))
     elif kind == "badopt":
@@ -844,19 +870,37 @@ def request(draw, allow_fault=True):
         h, args = "eapply", ["absent.patch"]
     elif kind == "filter_env":
         h, args = "filter_env", ["-v", "FOO", "env.in", "env.out"]
+    elif kind in ("unpack_ok", "unpack_bad", "unpack_missing"):
+        h = "unpack"
+        args = ["./" + {"unpack_ok": "good.tar.gz", "unpack_bad": "bad.tar.gz", "unpack_missing": "absent.tar.gz"}[kind]]
+    elif kind == "blocked":
+        # a directory sits where one of the files has to go; files are installed in destination order, the blocked
+        # one may be first, in the middle or last
+        h = draw(st.sampled_from(["doins", "doexe"]))
+        dest = draw(st.sampled_from(["/etc/app", "/opt/blk d"]))
+        files = draw(st.lists(st.sampled_from(["a.txt", "b.conf", "tool", "x y.txt"]), min_size=2, max_size=3, unique=True))
+        victim = draw(st.sampled_from(files))
+        # fallback variants carry -T (destination is the file itself): without it install(1) silently puts the file
+        # INSIDE the blocking directory and exits 0, a GNU-ism outside what the property statement pins down
+        opt = draw(st.sampled_from(["-m0644", "-m0644", "-m0644 -T", "-m0644 -T -c", "-m0600 -T -C", "-T -m0644"]))
+        env = {("insinto" if h == "doins" else "exeinto"): dest, ("insopts" if h == "doins" else "exeopts"): opt}
+        args = files
+        blocker = {"helper": "dodir", "env": {}, "args": [dest + "/" + victim], "nonfatal": True, "kind": "blocker", "fault": None}
     nonfatal = draw(st.integers(0, 9)) < 7
     r = {"helper": h, "env": env, "args": args, "nonfatal": nonfatal, "kind": kind, "fault": None}
+    if kind == "blocked":
+        return [blocker, r]
     if allow_fault and kind in ("ok_files", "dodir", "keepdir", "dosym", "recursive") and draw(st.integers(0, 9)) < 4:
         mod, fn = draw(st.sampled_from(FAULTS))
         r["fault"] = {"mod": mod, "fn": fn, "nth": draw(st.integers(1, 3))}
-    return r
+    return [r]
 
 
 @st.composite
 def stream(draw, layer="inproc"):
     eapi = str(draw(st.sampled_from([0, 4, 6, 7, 8, 8])))
     n = draw(st.integers(2, 6 if layer != "bash" else 5))
-    reqs = [draw(request(allow_fault=(layer == "inproc"))) for _ in range(n)]
+    reqs = [r for _ in range(n) for r in draw(request(allow_fault=(layer == "inproc")))]
     if eapi in ("0", "4"):  # eapply exists from EAPI 6 on
         reqs = [r for r in reqs if r["helper"] != "eapply"]
         if not reqs:
@@ -875,7 +919,7 @@ def stream(draw, layer="inproc"):
 
 def nontrivial(case):
     failing = {"missing", "dir_no_r", "noman", "ext_fail", "dirext_fail", "dosym_bad", "noargs", "badopt", "eapply_bad",
-               "eapply_missing"}
+               "eapply_missing", "blocked", "unpack_bad", "unpack_missing"}
     kinds = [r["kind"] for r in case["requests"]]
     if any(r.get("fault") for r in case["requests"]):
         return True
@@ -888,7 +932,7 @@ def run_stream(ctx, case, record=True):
     if record:
         cl = classify(case)
         kinds = [r["kind"] for r in case["requests"]]
-        failing_first = any(k in ("missing", "dir_no_r", "noman", "ext_fail", "dosym_bad", "noargs", "badopt")
+        failing_first = any(k in ("missing", "dir_no_r", "noman", "ext_fail", "dosym_bad", "noargs", "badopt", "blocked")
                             for k in kinds[:-1])
         if failing_first:
             cl.append("request_after_failure")
